@@ -15,6 +15,7 @@
     dead_code
 )]
 
+pub mod guard;
 pub mod state;
 
 /// Hook `sched_raw` (C03, C01): drive the real pending queue / reservation code of both
